@@ -389,16 +389,22 @@ class Context:
                 # Check for getter/setter: a half the descriptor does not mention stays
                 # as it is, one it gives as undefined is removed
                 if present("get") or present("set"):
-                    getter = descriptor.get("get")
-                    setter = descriptor.get("set")
-                    if getter is not UNDEFINED and getter is not NULL:
+                    getter = obj._getters.get(prop_name)
+                    setter = obj._setters.get(prop_name)
+                    if present("get"):
+                        getter = descriptor.get("get")
+                        getter = None if getter is UNDEFINED or getter is NULL else getter
+                    if present("set"):
+                        setter = descriptor.get("set")
+                        setter = None if setter is UNDEFINED or setter is NULL else setter
+                    if getter is not None:
                         obj.define_getter(prop_name, getter)
-                    elif present("get") and prop_name in obj._setters:
-                        obj._getters.pop(prop_name, None)
-                    if setter is not UNDEFINED and setter is not NULL:
+                        if setter is None:
+                            obj._setters.pop(prop_name, None)
+                    if setter is not None:
                         obj.define_setter(prop_name, setter)
-                    elif present("set") and prop_name in obj._getters:
-                        obj._setters.pop(prop_name, None)
+                        if getter is None:
+                            obj._getters.pop(prop_name, None)
                 elif present("value"):
                     # a data descriptor replaces an accessor of the same name
                     was_accessor = prop_name in obj._getters or prop_name in obj._setters
